@@ -39,7 +39,11 @@ impl J {
         J::Obj(items.into_iter().map(|(k, v)| (k.to_string(), v)).collect())
     }
     pub fn map_u64<K: std::fmt::Display>(m: impl IntoIterator<Item = (K, u64)>) -> J {
-        J::Obj(m.into_iter().map(|(k, v)| (k.to_string(), J::u(v))).collect())
+        J::Obj(
+            m.into_iter()
+                .map(|(k, v)| (k.to_string(), J::u(v)))
+                .collect(),
+        )
     }
     pub fn write(&self, out: &mut String, indent: usize) {
         let pad = |out: &mut String, n: usize| {
@@ -263,11 +267,15 @@ impl<S: Scenario, C: Codec> DynScenario for Erased<S, C> {
         Scenario::assumptions(&self.inner)
     }
     fn gen_json(&self, seed: u64, run: u64, tier: Tier) -> String {
-        let case = self.inner.generate(&mut case_rng(seed, Scenario::name(&self.inner), run), tier);
+        let case = self
+            .inner
+            .generate(&mut case_rng(seed, Scenario::name(&self.inner), run), tier);
         C::to_json(&case)
     }
     fn run_generated(&self, seed: u64, run: u64, tier: Tier) -> Outcome {
-        let case = self.inner.generate(&mut case_rng(seed, Scenario::name(&self.inner), run), tier);
+        let case = self
+            .inner
+            .generate(&mut case_rng(seed, Scenario::name(&self.inner), run), tier);
         self.inner.execute(&case, false)
     }
     fn run_replay_doc(&self, doc: &str, log: bool) -> Result<Outcome, String> {
@@ -279,7 +287,9 @@ impl<S: Scenario, C: Codec> DynScenario for Erased<S, C> {
         Ok(self.inner.execute(&case, log))
     }
     fn minimise(&self, seed: u64, run: u64, tier: Tier, sig: &str) -> (String, Outcome, u64) {
-        let mut best = self.inner.generate(&mut case_rng(seed, Scenario::name(&self.inner), run), tier);
+        let mut best = self
+            .inner
+            .generate(&mut case_rng(seed, Scenario::name(&self.inner), run), tier);
         let mut execs = 0u64;
         let budget = 600u64;
         let started = Instant::now();
@@ -395,7 +405,12 @@ pub fn run_check<C: Codec>(prop: &Property, tier: Tier, seed: u64) -> i32 {
     let workers: usize = std::env::var("VERIF_WORKERS")
         .ok()
         .and_then(|s| s.parse().ok())
-        .unwrap_or_else(|| std::thread::available_parallelism().map(|n| n.get()).unwrap_or(8).min(16));
+        .unwrap_or_else(|| {
+            std::thread::available_parallelism()
+                .map(|n| n.get())
+                .unwrap_or(8)
+                .min(16)
+        });
     let wall_cap_s: u64 = std::env::var("VERIF_WALL_CAP_S")
         .ok()
         .and_then(|s| s.parse().ok())
@@ -403,7 +418,10 @@ pub fn run_check<C: Codec>(prop: &Property, tier: Tier, seed: u64) -> i32 {
             Tier::Quick => 150,
             Tier::Thorough => 1500,
         });
-    let hang_s: u64 = std::env::var("VERIF_HANG_S").ok().and_then(|s| s.parse().ok()).unwrap_or(90);
+    let hang_s: u64 = std::env::var("VERIF_HANG_S")
+        .ok()
+        .and_then(|s| s.parse().ok())
+        .unwrap_or(90);
     let known: Vec<KnownFinding> = load_known_findings::<C>()
         .into_iter()
         .filter(|k| k.property == prop.id && k.status == "known")
@@ -424,7 +442,11 @@ pub fn run_check<C: Codec>(prop: &Property, tier: Tier, seed: u64) -> i32 {
         let known_m: Mutex<BTreeMap<String, (u64, usize, u64)>> = Mutex::new(BTreeMap::new());
         let herr_m: Mutex<Vec<String>> = Mutex::new(Vec::new());
         let slots: Vec<Arc<WorkerSlot>> = (0..workers)
-            .map(|_| Arc::new(WorkerSlot { current: Mutex::new(None) }))
+            .map(|_| {
+                Arc::new(WorkerSlot {
+                    current: Mutex::new(None),
+                })
+            })
             .collect();
         let done = AtomicBool::new(false);
         let capped_flag = AtomicBool::new(false);
@@ -448,9 +470,22 @@ pub fn run_check<C: Codec>(prop: &Property, tier: Tier, seed: u64) -> i32 {
                                     let v = Violation::new(
                                         &format!("{}/hang", prop_id),
                                         "",
-                                        format!("run did not finish within {} s of wall time", hang_s),
+                                        format!(
+                                            "run did not finish within {} s of wall time",
+                                            hang_s
+                                        ),
                                     );
-                                    let path = write_replay(prop_id, sc.name(), seed, run, tier, &case, &v, &[], 0);
+                                    let path = write_replay(
+                                        prop_id,
+                                        sc.name(),
+                                        seed,
+                                        run,
+                                        tier,
+                                        &case,
+                                        &v,
+                                        &[],
+                                        0,
+                                    );
                                     println!("VIOLATION property={} replay={}", prop_id, path);
                                     println!("  signature: {}", v.signature());
                                     std::process::exit(1);
@@ -500,7 +535,12 @@ pub fn run_check<C: Codec>(prop: &Property, tier: Tier, seed: u64) -> i32 {
                             *local.counters.entry(k.clone()).or_insert(0) += v;
                         }
                         if let Some(e) = out.harness_error {
-                            herr_m.lock().unwrap().push(format!("scenario={} run={}: {}", sc.name(), r, e));
+                            herr_m.lock().unwrap().push(format!(
+                                "scenario={} run={}: {}",
+                                sc.name(),
+                                r,
+                                e
+                            ));
                             stop.store(true, Ordering::SeqCst);
                             break;
                         }
@@ -589,7 +629,17 @@ pub fn run_check<C: Codec>(prop: &Property, tier: Tier, seed: u64) -> i32 {
             return 2;
         }
         let v = out.violation.clone().unwrap_or_else(|| f.violation.clone());
-        let path = write_replay(prop.id, sc.name(), seed, f.run, tier, &case, &v, &out.log, execs);
+        let path = write_replay(
+            prop.id,
+            sc.name(),
+            seed,
+            f.run,
+            tier,
+            &case,
+            &v,
+            &out.log,
+            execs,
+        );
         println!("VIOLATION property={} replay={}", prop.id, path);
         println!("  signature: {}", v.signature());
         println!("  detail: {}", v.detail);
@@ -597,12 +647,25 @@ pub fn run_check<C: Codec>(prop: &Property, tier: Tier, seed: u64) -> i32 {
         exit = 1;
     }
     for (sig, (n, _, _)) in &known_hits {
-        println!("KNOWN-FINDING: property={} {} (hit in {} runs)", prop.id, sig, n);
+        println!(
+            "KNOWN-FINDING: property={} {} (hit in {} runs)",
+            prop.id, sig, n
+        );
     }
 
     // evidence
     let wall = t0.elapsed().as_secs_f64();
-    write_evidence(prop, tier, seed, &aggs, wall, exit, &known_hits, capped, workers);
+    write_evidence(
+        prop,
+        tier,
+        seed,
+        &aggs,
+        wall,
+        exit,
+        &known_hits,
+        capped,
+        workers,
+    );
     let total_eval: u64 = aggs.iter().map(|a| a.evaluations).sum();
     let total_nt: usize = aggs.iter().map(|a| a.fingerprints.len()).sum();
     println!(
@@ -613,7 +676,11 @@ pub fn run_check<C: Codec>(prop: &Property, tier: Tier, seed: u64) -> i32 {
         total_eval,
         total_nt,
         wall,
-        if capped { " (wall-clock cap reached)" } else { "" },
+        if capped {
+            " (wall-clock cap reached)"
+        } else {
+            ""
+        },
         if exit == 0 { "OK" } else { "VIOLATION" }
     );
     exit
@@ -713,15 +780,28 @@ fn write_evidence(
                 ("distinct_nontrivial", J::u(a.fingerprints.len() as u64)),
                 ("simulated_ms", J::u(a.sim_ms)),
                 ("executor_steps", J::u(a.steps)),
-                ("counters", J::map_u64(a.counters.iter().map(|(k, v)| (k.clone(), *v)))),
+                (
+                    "counters",
+                    J::map_u64(a.counters.iter().map(|(k, v)| (k.clone(), *v))),
+                ),
             ]));
             for (k, v) in &a.counters {
                 *counters_total.entry(k.clone()).or_insert(0) += v;
             }
         }
     }
-    let faults = J::map_u64(counters_total.iter().filter(|(k, _)| k.starts_with("fault.")).map(|(k, v)| (k.clone(), *v)));
-    let probes = J::map_u64(counters_total.iter().filter(|(k, _)| k.starts_with("probe.")).map(|(k, v)| (k.clone(), *v)));
+    let faults = J::map_u64(
+        counters_total
+            .iter()
+            .filter(|(k, _)| k.starts_with("fault."))
+            .map(|(k, v)| (k.clone(), *v)),
+    );
+    let probes = J::map_u64(
+        counters_total
+            .iter()
+            .filter(|(k, _)| k.starts_with("probe."))
+            .map(|(k, v)| (k.clone(), *v)),
+    );
     let known: Vec<J> = known_hits
         .iter()
         .map(|(k, v)| J::obj(vec![("signature", J::s(k.clone())), ("runs", J::u(v.0))]))
@@ -739,7 +819,14 @@ fn write_evidence(
                 ("rule", J::s(rule)),
                 ("samples", J::Arr(samples)),
                 ("exhaustive", J::Bool(false)),
-                ("runs_per_hour", J::u(if wall > 0.0 { (evaluations as f64 / wall * 3600.0) as u64 } else { 0 })),
+                (
+                    "runs_per_hour",
+                    J::u(if wall > 0.0 {
+                        (evaluations as f64 / wall * 3600.0) as u64
+                    } else {
+                        0
+                    }),
+                ),
                 ("simulated_time_s", J::u(sim_ms / 1000)),
                 ("executor_steps", J::u(steps)),
                 ("workers", J::u(workers as u64)),
@@ -747,12 +834,21 @@ fn write_evidence(
                 ("faults_fired", faults),
                 ("probes_hit", probes),
                 ("per_scenario", J::Arr(per_scenario)),
-                ("real_components", J::Arr(real.iter().map(|x| J::s(*x)).collect())),
-                ("stub_components", J::Arr(stub.iter().map(|x| J::s(*x)).collect())),
+                (
+                    "real_components",
+                    J::Arr(real.iter().map(|x| J::s(*x)).collect()),
+                ),
+                (
+                    "stub_components",
+                    J::Arr(stub.iter().map(|x| J::s(*x)).collect()),
+                ),
                 ("known_findings_matched", J::Arr(known)),
             ]),
         ),
-        ("assumptions", J::Arr(assumptions.into_iter().map(J::s).collect())),
+        (
+            "assumptions",
+            J::Arr(assumptions.into_iter().map(J::s).collect()),
+        ),
         ("wall_s", J::Num((wall * 1000.0).round() / 1000.0)),
         ("violations", J::u(if exit == 0 { 0 } else { 1 })),
     ]);
@@ -825,7 +921,10 @@ pub fn run_replay<C: Codec>(props: &[Property], path: &str) -> i32 {
                     1
                 }
                 None => {
-                    println!("replay of {} did not violate {} (trace_hash {:016x})", path, pid, out.trace_hash);
+                    println!(
+                        "replay of {} did not violate {} (trace_hash {:016x})",
+                        path, pid, out.trace_hash
+                    );
                     0
                 }
             }
